@@ -223,6 +223,8 @@ def eval_result(x, ev: Evaluator):
     idx = x.index_ if not isinstance(x, SymIndex) else x.idx
     if idx.defined:
         ivals = [ev(idx.vals[i]) if z3.is_expr(idx.vals[i]) else idx.vals[i] for i in rows]
+        if idx.nan:
+            ivals = [np.nan if v == 2 ** 40 else v for v in ivals]
         index = pd.Index(ivals, name=idx.name)
     else:
         index = pd.RangeIndex(len(rows), name=idx.name)
